@@ -1,0 +1,12 @@
+//go:build verif
+
+package openapi3filter
+
+import "github.com/getkin/kin-openapi/openapi3"
+
+// VerifDecodeStyledParameter exposes decodeStyledParameter to the verification harness
+// (build tag "verif" only): the decoded value of a style-serialised parameter is not
+// otherwise observable through the public API.
+func VerifDecodeStyledParameter(param *openapi3.Parameter, input *RequestValidationInput) (any, bool, error) {
+	return decodeStyledParameter(param, input)
+}
